@@ -38,6 +38,9 @@ pub enum Path {
     /// a segment loaded from a generated ELF with p_flags = mask: 0 API write, 1 guest store, 2 API read,
     /// 3 guest load, 4 fetch; `exact_page`: p_filesz = p_memsz = one page (no zero padding)
     Elf { kind: u8, exact_page: bool },
+    /// an instruction whose first `split` bytes end the constructor's code area and whose remaining bytes
+    /// lie in a directly adjacent area with mask `nmask`
+    FetchStraddle { nmask: u32, split: u64 },
 }
 
 #[derive(Clone, Debug, Serialize, Deserialize)]
@@ -47,6 +50,10 @@ pub struct Case {
     pub offset: u64,
     pub seed: u64,
     pub cf_zf: u64,
+    /// resize the target area to this size (keeping its start) after the mask was set and before the
+    /// access: permissions must survive a resize
+    #[serde(default)]
+    pub pre_resize: Option<u64>,
 }
 
 pub struct Template {
@@ -196,6 +203,46 @@ impl C09 {
         out
     }
 
+    fn exec_fetch_straddle(&mut self, c: &Case, nmask: u32, split: u64) -> CaseOut {
+        // mov rax, imm32 (7 bytes): the first `split` bytes end the code area, the rest starts the neighbour
+        let ins: [u8; 7] = [0x48, 0xc7, 0xc0, 0x2a, 0x00, 0x00, 0x00];
+        let split = split.min(6) as usize;
+        let mut code = vec![0x90u8; 16];
+        code.extend_from_slice(&ins[..split]);
+        let start = CODE_AT;
+        let mut ax = match api(|| Axecutor::new(&code, start, start + 16)) {
+            Api::Ok(a) => a,
+            other => return CaseOut::fail("HARNESS-FAULT|C09-new".into(), other.short()),
+        };
+        init_regs(&mut ax, c.seed);
+        let mut rest = ins[split..].to_vec();
+        rest.extend_from_slice(&[0x90; 16]);
+        ax.mem_init_area(start + code.len() as u64, rest).unwrap();
+        ax.mem_prot(start + code.len() as u64, nmask).unwrap();
+        let before = snap(&ax);
+        let res = step(&mut ax);
+        let mut out = CaseOut::pass(true, hash_json(c)).class("kind:fetch-straddle");
+        let what = format!("an instruction whose first {} bytes end the executable code area and whose rest lies in a directly adjacent area with mask {}", split, nmask);
+        if let Api::Panic(p) = &res {
+            out.verdict = Verdict::Fail { sig: format!("C09|fetch-straddle|{}", p.signature()), msg: format!("{} crashed: {}", what, res.short()) };
+            return out;
+        }
+        if nmask & 4 == 0 {
+            out = out.class("denial");
+            if res.is_ok() {
+                out.verdict = Verdict::Fail { sig: "C09|fetch-straddle|bytes-fetched-from-non-executable-area".into(), msg: format!("{} executed", what) };
+                return out;
+            }
+            let after = snap(&ax);
+            if after.gpr != before.gpr || after.areas != before.areas {
+                out.verdict = Verdict::Fail { sig: "C09|fetch-straddle|denied-fetch-changed-state".into(), msg: format!("{} was refused but state changed: {}", what, before.diff(&after)) };
+            }
+        } else {
+            out = out.class("either-way");
+        }
+        out
+    }
+
     fn exec_elf(&mut self, c: &Case, kind: u8, exact_page: bool) -> CaseOut {
         use crate::elfb::{build, ElfDesc, Seg};
         let (r, w, x) = (c.mask & 1 != 0, c.mask & 2 != 0, c.mask & 4 != 0);
@@ -276,7 +323,8 @@ impl Property for C09 {
         let mut t = Tape::new(&tape[0]);
         let mask = t.below(8) as u32;
         let nt = self.t.len() as u64;
-        let path = match t.weighted(&[13, 13, 9, 36, 13, 4, 6, 6]) {
+        let path = match t.weighted(&[13, 13, 9, 36, 13, 4, 6, 6, 4]) {
+            8 => Path::FetchStraddle { nmask: t.below(8) as u32, split: 1 + t.below(6) },
             6 => {
                 let kind = t.below(6) as u8;
                 let size = [16u64, 8, 16, 8, 8, 3][kind as usize];
@@ -290,7 +338,7 @@ impl Property for C09 {
             4 => Path::Stack { which: t.below(STACK_OPS.len() as u64) as usize },
             _ => Path::ApiWriteCode { width: t.pick(&[1u64, 2, 4, 8, 16, 3]) },
         };
-        Case { mask, path, offset: 0x40 + 16 * t.below((TLEN - 0x80) / 16), seed: t.raw(), cf_zf: t.below(4) }
+        Case { mask, path, offset: 0x40 + 16 * t.below((TLEN - 0x80) / 16), seed: t.raw(), cf_zf: t.below(4), pre_resize: if t.below(4) == 0 { Some(if t.bool() { TLEN + 0x100 } else { TLEN - 0x20 }) } else { None } }
     }
 
     fn fixed_cases(&mut self, _tier: Tier) -> Vec<Case> {
@@ -299,29 +347,44 @@ impl Property for C09 {
         for mask in 0..8u32 {
             for template in 0..self.t.len() {
                 for cf_zf in 0..4 {
-                    v.push(Case { mask, path: Path::Operand { template }, offset: 0x100, seed: 1, cf_zf });
+                    v.push(Case { mask, path: Path::Operand { template }, offset: 0x100, seed: 1, cf_zf , pre_resize: None });
                 }
             }
             for which in 0..STACK_OPS.len() {
-                v.push(Case { mask, path: Path::Stack { which }, offset: 0x100, seed: 2, cf_zf: 0 });
+                v.push(Case { mask, path: Path::Stack { which }, offset: 0x100, seed: 2, cf_zf: 0 , pre_resize: None });
             }
             for width in [1u64, 2, 4, 8, 16, 3] {
-                v.push(Case { mask, path: Path::ApiRead { width }, offset: 0x100, seed: 3, cf_zf: 0 });
-                v.push(Case { mask, path: Path::ApiWrite { width }, offset: 0x100, seed: 4, cf_zf: 0 });
-                v.push(Case { mask, path: Path::ApiWriteCode { width }, offset: 0x100, seed: 5, cf_zf: 0 });
+                v.push(Case { mask, path: Path::ApiRead { width }, offset: 0x100, seed: 3, cf_zf: 0 , pre_resize: None });
+                v.push(Case { mask, path: Path::ApiWrite { width }, offset: 0x100, seed: 4, cf_zf: 0 , pre_resize: None });
+                v.push(Case { mask, path: Path::ApiWriteCode { width }, offset: 0x100, seed: 5, cf_zf: 0 , pre_resize: None });
             }
-            v.push(Case { mask, path: Path::Fetch, offset: 0x100, seed: 6, cf_zf: 0 });
+            v.push(Case { mask, path: Path::Fetch, offset: 0x100, seed: 6, cf_zf: 0, pre_resize: None });
             for kind in 0..6u8 {
                 let size = [16u64, 8, 16, 8, 8, 3][kind as usize];
                 for nmask in 0..8u32 {
                     for inside in [1, size / 2, size - 1] {
-                        v.push(Case { mask, path: Path::Straddle { kind, nmask, inside }, offset: 0x100, seed: 7, cf_zf: 0 });
+                        v.push(Case { mask, path: Path::Straddle { kind, nmask, inside }, offset: 0x100, seed: 7, cf_zf: 0 , pre_resize: None });
                     }
                 }
             }
+            for nmask in 0..8u32 {
+                for split in 1..7u64 {
+                    v.push(Case { mask, path: Path::FetchStraddle { nmask, split }, offset: 0x100, seed: 9, cf_zf: 0, pre_resize: None });
+                }
+            }
+            for pre in [TLEN + 0x100, TLEN - 0x20] {
+                for template in 0..self.t.len() {
+                    v.push(Case { mask, path: Path::Operand { template }, offset: 0x100, seed: 10, cf_zf: 1, pre_resize: Some(pre) });
+                }
+                for width in [1u64, 8, 16] {
+                    v.push(Case { mask, path: Path::ApiRead { width }, offset: 0x100, seed: 11, cf_zf: 0, pre_resize: Some(pre) });
+                    v.push(Case { mask, path: Path::ApiWrite { width }, offset: 0x100, seed: 12, cf_zf: 0, pre_resize: Some(pre) });
+                }
+                v.push(Case { mask, path: Path::Fetch, offset: 0x100, seed: 13, cf_zf: 0, pre_resize: Some(pre) });
+            }
             for kind in 0..5u8 {
                 for exact_page in [false, true] {
-                    v.push(Case { mask, path: Path::Elf { kind, exact_page }, offset: 0x100, seed: 8, cf_zf: 0 });
+                    v.push(Case { mask, path: Path::Elf { kind, exact_page }, offset: 0x100, seed: 8, cf_zf: 0 , pre_resize: None });
                 }
             }
         }
@@ -332,6 +395,7 @@ impl Property for C09 {
         match &c.path {
             Path::Straddle { kind, nmask, inside } => return self.exec_straddle(c, *kind, *nmask, *inside),
             Path::Elf { kind, exact_page } => return self.exec_elf(c, *kind, *exact_page),
+            Path::FetchStraddle { nmask, split } => return self.exec_fetch_straddle(c, *nmask, *split),
             _ => {}
         }
         // code: the instruction under test followed by padding
@@ -373,6 +437,11 @@ impl Property for C09 {
         ax.mem_init_area(TARGET, tdata.clone()).unwrap();
         ax.mem_init_area_named(STACK, vec![0u8; 0x200], Some("Stack".into())).unwrap();
         ax.mem_prot(TARGET, c.mask).unwrap();
+        if let Some(sz) = c.pre_resize {
+            if ax.mem_resize_section(TARGET, sz).is_err() {
+                return CaseOut::fail("HARNESS-FAULT|C09-resize".into(), "could not resize the target area".into());
+            }
+        }
         ax.reg_write_64(SR::RBX, TARGET + c.offset).unwrap();
         ax.reg_write_64(SR::RAX, 0x0102_0304_0506_0708).unwrap(); // non-zero divisor context, harmless values
         ax.reg_write_64(SR::RDX, 0).unwrap();
@@ -456,6 +525,9 @@ impl Property for C09 {
         let must_fail = must_fail || (role == Role::CondRead && cond_true && !r);
         let cell = format!("{}:{:?}:mask{}", kind, role, c.mask);
         out = out.class(format!("cell:{}", cell)).class(format!("kind:{}", kind));
+        if c.pre_resize.is_some() {
+            out = out.class("after-resize");
+        }
         out.nontrivial = must_fail || c.mask != 3;
         if must_fail {
             out = out.class("denial");
@@ -488,11 +560,11 @@ impl Property for C09 {
     }
 
     fn rule(&self) -> String {
-        "fixed: the complete grid 8 masks × (55 guest instruction templates by operand role × 4 CF/ZF states, 7 implicit stack instructions, API reads/writes of 1/2/3/4/8/16 bytes, API writes into the constructor's code area, instruction fetch, stores that run from the target area into a directly adjacent area of any mask, and all five access kinds on a segment loaded from a generated ELF with p_flags = mask, with and without zero padding); random: the same grid with random offsets and register contents; oracle = enforcement model (read needs R, write needs W, read-modify-write needs R and W, fetch needs X): a missing bit ⇒ Err and every area byte-identical; success is required when the mask also contains R; non-trivial = a denial, or any case on a mask other than RW; distinct by hash(case)".into()
+        "fixed: the complete grid 8 masks × (55 guest instruction templates by operand role × 4 CF/ZF states, 7 implicit stack instructions, API reads/writes of 1/2/3/4/8/16 bytes, API writes into the constructor's code area, instruction fetch, stores that run from the target area into a directly adjacent area of any mask, and all five access kinds on a segment loaded from a generated ELF with p_flags = mask, with and without zero padding, an instruction split across the end of the code area and an adjacent area of any mask; for 1/4 of the cases the target area is resized after its mask was set); random: the same grid with random offsets and register contents; oracle = enforcement model (read needs R, write needs W, read-modify-write needs R and W, fetch needs X): a missing bit ⇒ Err and every area byte-identical; success is required when the mask also contains R; non-trivial = a denial, or any case on a mask other than RW; distinct by hash(case)".into()
     }
     fn required_classes(&self, _tier: Tier) -> Vec<String> {
-        let mut v = vec!["denial".into(), "allowance".into(), "tier:fixed".into()];
-        for k in ["api", "operand", "stack", "fetch", "straddle", "elf-segment"] {
+        let mut v = vec!["denial".into(), "allowance".into(), "tier:fixed".into(), "after-resize".into()];
+        for k in ["api", "operand", "stack", "fetch", "straddle", "elf-segment", "fetch-straddle"] {
             v.push(format!("kind:{}", k));
         }
         v
